@@ -16,7 +16,7 @@ from .. import sym as S
 from .. import lib
 from ..lib import F
 from ..runner import Unit
-from .common import mk_utpm, x0_for, data_of
+from .common import mk_utpm, x0_for, x0_for_complex, data_of
 
 PROP = 'C01'
 
@@ -61,7 +61,7 @@ def call_function(algopy, fname, x, via, params):
     raise KeyError(fname)
 
 
-def h_unary(ctx, fname, D, P, shape, via='algopy', params=None):
+def h_unary(ctx, fname, D, P, shape, via='algopy', params=None, cplx=False):
     algopy = symx.load_algopy()
     params = dict(params or {})
     shape = tuple(shape)
@@ -72,16 +72,16 @@ def h_unary(ctx, fname, D, P, shape, via='algopy', params=None):
     if fname == 'rpow':
         params['csym'] = ctx.var('c', pos=True)
     # inputs
-    X = np.empty((D, P) + shape, dtype=object if ctx.mode == 'sym' else float)
+    X = np.empty((D, P) + shape, dtype=object if ctx.mode == 'sym' else (complex if cplx else float))
     info = {}
     for p in range(P):
         for i in np.ndindex(*shape):
             tag = 'p%d%s' % (p, ''.join('_%d' % j for j in i))
-            x0, ex = x0_for(ctx, fname, tag)
+            x0, ex = x0_for_complex(ctx, fname, tag) if cplx else x0_for(ctx, fname, tag)
             X[(0, p) + i] = x0
             info[(p,) + i] = ex
             for d in range(1, D):
-                X[(d, p) + i] = ctx.var('x%d_%s' % (d, tag))
+                X[(d, p) + i] = ctx.cvar('x%d_%s' % (d, tag)) if cplx else ctx.var('x%d_%s' % (d, tag))
     x = mk_utpm(ctx, algopy, X)
     y = call_function(algopy, fname, x, via, params)
     Y = data_of(ctx, algopy, y, (D, P) + shape)
@@ -249,6 +249,12 @@ def units(tier, seed):
         add('pow_npint(%d)/D%d,P1' % (n, powD), 'h_unary', fname='powi_np', D=powD, P=1, shape=(), params={'n': n})
     for r in (['1/2', '5/2', '-3/2'] if tier == 'quick' else ['1/2', '5/2', '-3/2', '1/3', '7/4', '-1/2']):
         add('pow_float(%s)/D%d,P2' % (r, powD), 'h_unary', fname='powf', D=powD, P=2, shape=(), params={'r': r})
+    # complex coefficients (where NumPy/SciPy support them and the oracle is rational in the atoms)
+    cD, cP = (3, 1) if tier == 'quick' else (4, 2)
+    for fname in ['exp', 'expm1', 'log', 'log1p', 'sqrt', 'sin', 'cos', 'sinh', 'cosh', 'reciprocal', 'square']:
+        add('%s/complex/D%d,P%d' % (fname, cD, cP), 'h_unary', fname=fname, D=cD, P=cP, shape=(2,) if tier != 'quick' else (), cplx=True)
+    for n in (-2, 2, 3, 4):
+        add('pow_int(%d)/complex/D%d,P%d' % (n, cD, cP), 'h_unary', fname='powi', D=cD, P=cP, shape=(), params={'n': n}, cplx=True)
     add('pow_real(symbolic r)/D%d,P2' % powD, 'h_unary', fname='powr', D=powD, P=2, shape=(2,))
     add('rpow(symbolic c)/D%d,P2' % powD, 'h_unary', fname='rpow', D=powD, P=2, shape=(2,))
     add('pow_utpm/D%d,P2' % min(powD, 5), 'h_pow_utpm', D=min(powD, 5), P=2)
